@@ -154,10 +154,10 @@ def printLoop (ev : Evals F) : Nat → Bool → Str → M F (Bool × Str)
     | some t =>
       if t.isKw .Colon || t.isKw .Else then pure (semi, acc)
       else if t.isKw .Semicolon then do
-        advance
+        let _ ← next
         printLoop ev n true acc
       else if t.isKw .Comma then do
-        advance
+        let _ ← next
         printLoop ev n false (acc ++ ['\t'])
       else do
         let v ← ev.expr
@@ -231,13 +231,16 @@ def defStatement : M F Unit := do
 def breakAtCurrentLocation : M F Unit := modify fun s =>
   ({ s with state := .idle, out := .brk s.loc.line :: s.out }).progBreak
 
-/-- `StatementEvaluator::evaluate_statement` -/
-def stmtBody (ev : Evals F) : M F Unit := do
+/-- the trace record `evaluate_statement` emits before dispatching -/
+def traceHere : M F Unit := do
   let s ← get
   if s.tracing then
     match s.loc.line with
     | some n => emit (.trace n)
     | none => pure ()
+
+/-- the `match self.program().next_token()` of `evaluate_statement` -/
+def dispatch (ev : Evals F) : M F Unit := do
   match ← next with
   | none => pure ()
   | some (.remark _) => pure ()
@@ -264,6 +267,11 @@ def stmtBody (ev : Evals F) : M F Unit := do
     | .Let => letStatement ev
     | _ => fail (.syntax .unexpectedToken)
   | some _ => fail (.syntax .unexpectedToken)
+
+/-- `StatementEvaluator::evaluate_statement` -/
+def stmtBody (ev : Evals F) : M F Unit := do
+  traceHere
+  dispatch ev
 
 /-- Tie the knot with fuel: `evalN 0` is out of fuel, `evalN (n+1)` runs the
     bodies with `evalN n` at the recursive call sites. -/
